@@ -109,9 +109,13 @@ func (g *Generator) getAllConstructors() (structs, enums []goifiedName) {
 		structs = append(structs, goify(method.Name+"Params", true))
 	}
 
-	for _, items := range g.schema.Enums {
+	for enumType, items := range g.schema.Enums {
 		for _, enum := range items {
-			enums = append(enums, goify(enum.Name, true))
+			t := goify(enum.Name, true)
+			if t == goify(enumType, true) {
+				t = goify(enum.Name+"Obj", true)
+			}
+			enums = append(enums, t)
 		}
 	}
 
